@@ -203,6 +203,9 @@ static int parse_ifdef_expression(
   int is_not = 0;
   int n1 = 0;
   int n;
+  // A call made for a higher precedence operator (entered with state 1)
+  // must leave a closing parenthesis for the call that opened it.
+  const bool is_sub = (state == 1);
 
   oper.operation = OPER_NONE;
   oper.precedence = precedence;
@@ -359,6 +362,8 @@ printf("debug> #if: parse_defined()=%d\n", n);
 
           if (n == -1) { return -1; }
       }
+
+      if (is_sub) { tokens_push(asm_context, token, token_type); }
 
       *num = n;
 
